@@ -26,8 +26,11 @@ CONSTANTS Budget,    \* number of constructs (leaf blocks and containers)
           Full,      \* TRUE: every spelling dimension; FALSE: a reduced spelling set
           Sim,       \* TRUE (with -simulate): each spelling choice is drawn at random instead of enumerated
           Emit
-VARIABLES stack, lines, toks, budget, fin
-vars == <<stack, lines, toks, budget, fin>>
+VARIABLES stack, lines, toks, budget, fin,
+          ofd,    \* > 0: an unclosed fence was written in the container at this stack depth: that
+                  \* container must be closed before anything else is written, without a blank line
+          need, defd   \* a reference to / the definition of the label "ref 1" has been written
+vars == <<stack, lines, toks, budget, fin, ofd, need, defd>>
 
 Pick(X) == IF Sim THEN {RandomElement(X)} ELSE X
 I(n) == <<n, "">>
@@ -43,8 +46,10 @@ NonZero(ps) == SelectSeq(ps, LAMBDA p : p[1] > 0 \/ p[2] # "")
 Fill1 == <<  \* single-line
   [ls |-> << <<S("foo")>> >>, ts |-> << <<"foo">> >>],
   [ls |-> << <<S("*foo* bar")>> >>, ts |-> << <<"<em>foo</em> bar">> >>],
-  [ls |-> << <<S("a \\# b &amp; `c`")>> >>, ts |-> << <<"a # b &amp; <code>c</code>">> >>]
+  [ls |-> << <<S("a \\# b &amp; `c`")>> >>, ts |-> << <<"a # b &amp; <code>c</code>">> >>],
+  [ls |-> << <<S("[t][Ref  1] x")>> >>, ts |-> << <<"<a href=\"/r1\" title=\"R\">t</a> x">> >>]   \* needs the definition
 >>
+RefFill == 4
 FillN == <<  \* two or three lines: soft break, hard breaks
   [ls |-> << <<S("foo")>>, <<S("bar")>> >>, ts |-> << <<"foo">>, <<"\n", "bar">> >>],
   [ls |-> << <<S("foo  ")>>, <<S("bar\\")>>, <<S("baz")>> >>, ts |-> << <<"foo">>, <<"<br />", "\n", "bar">>, <<"<br />", "\n", "baz">> >>],
@@ -91,6 +96,7 @@ MarkSaw(st, sep) ==
 ParaLike(k) == k \in {"para", "quote", "list", "defs"}   \* an open paragraph may be at the tip
 SepOk(prev, kind, sep) ==
   /\ (prev = "none" => sep = 0)
+  /\ prev # "openfence"                                                  \* 4.5: runs to the end of its container
   /\ (kind \in {"para", "setext"} /\ ParaLike(prev) => sep > 0)           \* 4.8 / 5.1 laziness
   /\ (kind = "icode" /\ ParaLike(prev) => sep > 0)                       \* 4.4 cannot interrupt
   /\ (kind = "icode" => prev # "icode")                                  \* would merge
@@ -103,12 +109,17 @@ SepOk(prev, kind, sep) ==
 
 InItemTight == Top.kind = "item" /\ stack[Len(stack) - 1].tight
 
+\* after an unclosed fence its container is closed first, and no blank line follows (a blank
+\* line inside a list item would still belong to the fence)
+OfdOk(sep) == ofd = 0 \/ (Len(stack) < ofd /\ sep = 0)
 \* the blank lines and the lines of a leaf block, written in the current container
 Write(sep, blockLines, kind, newToks, off) ==
   LET st1 == MarkSaw(stack, sep)
       n == Len(stack)
       seps == [i \in 1..sep |-> BlankLine]
   IN /\ \A i \in 1..Len(blockLines) : WellFormed(blockLines[i])
+     /\ OfdOk(sep)
+     /\ ofd' = IF kind = "openfence" /\ n > 1 /\ budget > 1 THEN n ELSE 0
      /\ stack' = [ClearPend(st1) EXCEPT ![n].prev = kind, ![n].prevOff = off]
      /\ lines' = lines \o seps \o [i \in 1..Len(blockLines) |-> NonZero(blockLines[i])]
      /\ toks' = toks \o newToks \o <<"\n">>   \* every block ends its line (matters next to raw HTML and tight text)
@@ -119,7 +130,7 @@ CanLeaf == ~fin /\ budget > 0 /\ Top.kind \in {"doc", "quote", "item"}
 \* extra leading indentation of a block: none for the first block of a list item (the white
 \* space after the marker is the item's content offset, 5.2), and less than the content
 \* offset of a list that precedes it (it would be absorbed by the last item)
-Indents == {j \in 0..3 : /\ (Top.kind = "item" /\ Top.prev = "none" => j = 0)
+Indents == {j \in 0..3 : /\ (Top.kind = "item" /\ Top.prev = "none" /\ Top.start # "empty" => j = 0)
                          /\ (Top.prev = "list" => j < Top.prevOff)
                          /\ (Full \/ j \in {0, 3})}
 Seps == IF Full THEN 0..2 ELSE 0..1
@@ -146,6 +157,7 @@ Para ==
           \* a lazy line that keeps the prefix of an item but drops an inner quote would need
           \* that item's indentation to be real; every dropped suffix is fine for plain text.
           \* A continuation line indented 4+ more than a kept LIST ITEM prefix is still text.
+          /\ need' = (need \/ (~multi /\ fi = RefFill)) /\ UNCHANGED defd
           /\ Write(sep, ls, "para", IF InItemTight THEN body ELSE <<"<p>">> \o body \o <<"</p>">>, 0)
 
 \* 4.2 ATX heading
@@ -159,6 +171,7 @@ Atx ==
            extra == IF closing = " \\#" THEN <<" #">> ELSE <<>>    \* an escaped # is content (4.2)
            line == FullPrefix \o NonZero(<<I(j)>>) \o <<S(Hashes(lv)), S(SubSeq("   ", 1, sp))>> \o f.ls[1] \o <<S(closing)>>
        IN /\ SepOk(Top.prev, "atx", sep) /\ WellFormed(line)
+          /\ need' = (need \/ fi = RefFill) /\ UNCHANGED defd
           /\ Write(sep, <<line>>, "atx", <<"<" \o tag \o ">">> \o f.ts[1] \o extra \o <<"</" \o tag \o ">">>, 0)
 
 \* 4.3 Setext heading: paragraph lines plus an underline
@@ -173,6 +186,7 @@ Setext ==
        IN /\ SepOk(Top.prev, "setext", sep) /\ WellFormed(l1) /\ WellFormed(l2)
           /\ (lv = 2 => ulen >= 2)      \* a lone '-' is left to the list rules
           \* in a list item the underline must not read as a bullet of its own: "-" + space
+          /\ need' = (need \/ fi = RefFill) /\ UNCHANGED defd
           /\ Write(sep, <<l1, l2>>, "setext", <<"<" \o tag \o ">">> \o f.ts[1] \o <<"</" \o tag \o ">">>, 0)
 
 \* 4.1 thematic break
@@ -189,6 +203,7 @@ Hr ==
           /\ ~(Top.kind = "item" /\ Top.prev = "none" /\ stack[Len(stack) - 1].ltype = ch)
           \* directly under a paragraph-like tip a spaced '-' break is fine, but the text of a
           \* list item must not turn it into a setext heading: covered by kind "hr-"
+          /\ UNCHANGED <<need, defd>>
           /\ Write(sep, <<line>>, "hr", <<"<hr />">>, 0)
 
 \* 4.5 fenced code block
@@ -217,7 +232,8 @@ Fenced ==
           /\ WellFormed(open)
           \* an unclosed fence runs to the end of its container: allowed only as the very last
           \* construct (budget 1) of the document part it is in; Finish/closing rules below
-          /\ (closed \/ budget = 1)
+          /\ (closed \/ budget = 1 \/ Top.kind \in {"quote", "item"})
+          /\ UNCHANGED <<need, defd>>
           \* a blank content line inside a block quote keeps its '>' (BlankLine); inside a list
           \* item an empty line is content as well
           /\ Write(sep, <<open>> \o body \o cl, IF closed THEN "fence" ELSE "openfence",
@@ -236,6 +252,7 @@ ICode ==
           /\ ~(Top.kind = "item" /\ Top.prev = "none")   \* first block of an item: see 5.2
           /\ (Top.prev = "list" => FALSE)                \* would be absorbed by the item
           /\ (two /\ more = 2 => FALSE)
+          /\ UNCHANGED <<need, defd>>
           /\ Write(sep, ls, "icode", <<"<pre><code>", txt, "</code></pre>">>, 0)
 
 \* 4.6 HTML blocks: a few fixed shapes (types 6, 2 and 7)
@@ -254,7 +271,23 @@ Html ==
           /\ \A i \in 1..Len(ls) : WellFormed(ls[i])
           \* types 6 and 7 end at a blank line: the next sibling needs one (closing rule), so
           \* these blocks are followed by a blank line or the end (see NeedBlankAfter)
+          /\ UNCHANGED <<need, defd>>
           /\ Write(sep, ls, kind, <<out>>, 0)
+
+\* 4.7 link reference definitions (at document level or in a block quote; they apply to the
+\* whole document from wherever they stand)
+DefSpell == << << <<S("[ref 1]: /r1 'R'")>> >>,
+              << <<S("[REF\t1]:")>>, <<I(2), S("</r1>")>>, <<S("\"R\"")>> >>,
+              << <<I(3), S("[Ref 1]: /r1 (R)")>>, <<S("[ref 1]: /other")>> >> >>
+Defs ==
+  /\ CanLeaf /\ Top.kind \in {"doc", "quote"} /\ ~defd
+  /\ \E sep \in Pick(Seps), v \in Pick(1..Len(DefSpell)) :
+       LET d == DefSpell[v]
+           ls == [i \in 1..Len(d) |-> (IF i = 1 THEN FullPrefix ELSE ContFull) \o d[i]]
+       IN /\ SepOk(Top.prev, "defs", sep)
+          /\ (v = 3 => Top.prev # "list")      \* its 3 columns of indentation would put it into the last item
+          /\ defd' = TRUE /\ UNCHANGED need
+          /\ Write(sep, ls, "defs", <<>>, 0)
 
 ----------------------------------------------------------------------------
 \* containers
@@ -269,7 +302,7 @@ OpenQuote ==
            st1 == MarkSaw(stack, sep)
            n == Len(stack)
            fr == [Frame("quote") EXCEPT !.cont = NonZero(<<I(j)>>) \o <<mk>>]
-       IN /\ SepOk(Top.prev, "quote", sep)
+       IN /\ SepOk(Top.prev, "quote", sep) /\ OfdOk(sep) /\ ofd' = 0 /\ UNCHANGED <<need, defd>>
           /\ stack' = Append([st1 EXCEPT ![n].prev = "quote", ![n].prevOff = 0], fr)
           /\ lines' = lines \o [i \in 1..sep |-> BlankLine]
           /\ toks' = Append(toks, "<blockquote>")
@@ -289,9 +322,9 @@ OpenList ==
            start == IF isOrd THEN m[1] ELSE ""
            fr == [Frame("list") EXCEPT !.tight = tight, !.ltype = lt, !.off = j,
                     !.close = <<IF isOrd THEN "</ol>" ELSE "</ul>">>,
-                    !.start = start]
+                    !.start = start, !.saw = FALSE, !.prev = IF ParaLike(Top.prev) /\ sep = 0 THEN "interrupt" ELSE "none"]
            tag == IF ~isOrd THEN "<ul>" ELSE IF start = "1" THEN "<ol>" ELSE "<ol start=\"" \o start \o "\">"
-       IN /\ SepOk(Top.prev, "list", sep)
+       IN /\ SepOk(Top.prev, "list", sep) /\ OfdOk(sep) /\ ofd' = 0 /\ UNCHANGED <<need, defd>>
           \* without a blank line after a paragraph-like tip only a bullet list or an ordered
           \* list starting with 1 can start (5.2: interrupting a paragraph)
           /\ (ParaLike(Top.prev) /\ sep = 0 => (~isOrd \/ start = "1"))
@@ -302,21 +335,32 @@ OpenList ==
           /\ toks' = Append(toks, tag)
           /\ budget' = budget - 1 /\ UNCHANGED fin
 
-\* the next item of the open list: marker, s columns after it
+\* the next item of the open list: marker indentation di (the first item's is the list's; a
+\* sibling's is 0..3 and less than the previous item's content offset, or it would be its
+\* child), marker, s columns after it - or nothing after the marker (the item begins with an
+\* empty line; its content offset is then the marker width + 1)
 OpenItem ==
   /\ ~fin /\ budget > 0 /\ Top.kind = "list"
-  /\ \E sep \in Pick(IF Top.n = 0 THEN {0} ELSE Seps), s \in Pick(IF Full THEN 1..4 ELSE {1, 3}) :
+  /\ \E sep \in Pick(IF Top.n = 0 THEN {0} ELSE Seps), s \in Pick(IF Full THEN 1..4 ELSE {1, 3}), empty \in Pick(BOOLEAN),
+        di \in Pick(IF Top.n = 0 THEN {Top.off} ELSE {x \in 0..3 : x < Top.prevOff /\ (Full \/ x \in {Top.off, 0})}) :
        LET n == Len(stack)
            L == Top
            isOrd == L.ltype \in {".", ")"}
            num == IF ~isOrd THEN "" ELSE IF L.n = 0 THEN L.start ELSE ToString(L.n + 3)  \* later numbers are free
            mk == IF isOrd THEN num \o L.ltype ELSE L.ltype
-           w == Len(mk) + s
-           fr == [Frame("item") EXCEPT !.pend = NonZero(<<I(L.off)>>) \o <<S(mk), I(s)>>, !.cont = <<I(L.off + w)>>, !.off = L.off + w]
+           w == IF empty THEN Len(mk) + 1 ELSE Len(mk) + s
            st1 == MarkSaw(stack, sep)
+           markerLine == NonZero(FullPrefix \o <<I(di), S(mk)>>)
+           fr == IF empty
+                 THEN [Frame("item") EXCEPT !.cont = <<I(di + w)>>, !.off = di + w, !.start = "empty"]
+                 ELSE [Frame("item") EXCEPT !.pend = NonZero(<<I(di)>>) \o <<S(mk), I(s)>>, !.cont = <<I(di + w)>>, !.off = di + w]
        IN /\ (L.tight => sep = 0)
-          /\ stack' = Append([st1 EXCEPT ![n].n = L.n + 1], fr)
-          /\ lines' = lines \o [i \in 1..sep |-> BlankLine]
+          /\ OfdOk(sep) /\ ofd' = 0 /\ UNCHANGED <<need, defd>>
+          \* 5.2: an empty item cannot interrupt a paragraph
+          /\ (empty /\ L.n = 0 => L.prev # "interrupt")
+          /\ (empty => WellFormed(markerLine))
+          /\ stack' = Append([(IF empty THEN ClearPend(st1) ELSE st1) EXCEPT ![n].n = L.n + 1], fr)
+          /\ lines' = lines \o [i \in 1..sep |-> BlankLine] \o (IF empty THEN <<markerLine>> ELSE <<>>)
           /\ toks' = Append(toks, "<li>")
           /\ UNCHANGED <<budget, fin>>
 
@@ -328,7 +372,6 @@ Close ==
      /\ (fr.kind \in {"quote", "item"} => fr.prev # "none")        \* no empty containers here
      /\ (fr.kind = "list" => fr.n > 0)
      /\ (fr.kind = "list" => (fr.tight = ~fr.saw))                  \* 5.3: tightness as announced
-     /\ fr.prev # "openfence"                                      \* only at the very end
      \* an item of a tight list holds no blank line between its children: checked through saw
      /\ stack' = IF fr.kind = "list"
                  THEN [SubSeq(stack, 1, n - 1) EXCEPT ![n - 1].prevOff = fr.prevOff]
@@ -336,7 +379,7 @@ Close ==
                  THEN [SubSeq(stack, 1, n - 1) EXCEPT ![n - 1].prevOff = fr.off]
                  ELSE SubSeq(stack, 1, n - 1)
      /\ toks' = toks \o (CASE fr.kind = "quote" -> <<"</blockquote>">> [] fr.kind = "item" -> <<"</li>">> [] OTHER -> fr.close)
-     /\ UNCHANGED <<lines, budget, fin>>
+     /\ UNCHANGED <<lines, budget, fin, ofd, need, defd>>
 
 \* the end of the document closes everything
 RECURSIVE CloseAll(_, _)
@@ -353,11 +396,13 @@ Finish ==
   /\ Len(lines) > 0
   /\ fin' = TRUE
   /\ toks' = CloseAll(stack, toks)
+  /\ (need => defd)
   /\ (Emit => PrintT(ToJson([lines |-> lines, toks |-> toks'])))
-  /\ UNCHANGED <<stack, lines, budget>>
+  /\ UNCHANGED <<stack, lines, budget, ofd, need, defd>>
 
 Init == /\ stack = <<Frame("doc")>> /\ lines = <<>> /\ toks = <<>> /\ budget = Budget /\ fin = FALSE
-Next == Para \/ Atx \/ Setext \/ Hr \/ Fenced \/ ICode \/ Html \/ OpenQuote \/ OpenList \/ OpenItem \/ Close \/ Finish
+        /\ ofd = 0 /\ need = FALSE /\ defd = FALSE
+Next == Para \/ Atx \/ Setext \/ Hr \/ Fenced \/ ICode \/ Html \/ Defs \/ OpenQuote \/ OpenList \/ OpenItem \/ Close \/ Finish
 Spec == Init /\ [][Next]_vars
 
 \* model-level sanity: pieces are well formed, the stack starts with the document
